@@ -42,6 +42,8 @@ func runExtras(l *loaded, run *PropRun, prop, tier string) {
 				frameParamObligations(l, run, k, []string{p}, "options")
 			}
 		}
+	case "C04":
+		terminationWitness(run)
 	case "C14":
 		gobObligations(l, run)
 	case "C10":
@@ -114,4 +116,31 @@ func runConformance(run *PropRun) {
 		}
 		run.Extra = append(run.Extra, o)
 	}
+}
+
+// terminationWitness: termination of the expander recursion is not an SMT obligation (no decreases clauses; C04 argues it
+// from the distinct-stack precondition under the assumption ids-canonical). For schemas that carry a relative directory id
+// the argument is false; that input class is represented by one bounded obligation that runs the real ExpandSpec on the
+// recorded input (findings/relative_id_cycle_test.go). It is labelled bounded and never counted as proved.
+func terminationWitness(run *PropRun) {
+	const name = "bounded/ExpandSpec/terminates-on-relative-id-cycle"
+	const bound = "ExpandSpec on one document: a definition with id \"sub/\" that refers to itself (runaway cut after 2000 id scopes)"
+	failed, built, out := witnessStatus(run.Repo, "/verif/findings/relative_id_cycle_test.go", "TestVerifWitnessRelativeIDCycle")
+	o := &Obligation{Name: name, Kind: "bounded", Props: []string{run.Prop}, Solver: "go test (bounded)", Expect: "unsat", Src: "bounded: " + bound}
+	switch {
+	case !built:
+		o.Status = "unknown"
+		o.Model = out
+		run.Bounded = append(run.Bounded, "bounded: "+bound+" — did not run")
+	case failed:
+		o.Status = "failed"
+		o.Model = out
+		o.replayNote = "the real ExpandSpec does not return on this input"
+		o.replayConfirmed = true
+		run.Bounded = append(run.Bounded, "bounded: "+bound+" — FAILED (recorded known finding)")
+	default:
+		o.Status = "proved"
+		run.Bounded = append(run.Bounded, "bounded (not a proof): "+bound+" — returned")
+	}
+	run.Extra = append(run.Extra, o)
 }
